@@ -728,6 +728,17 @@ def _primitives(c, prog):
     rets_ = [_sh(s_[1]) for cx, s_ in EL.flat if s_[0] == "ret"]
     c.inst("R7.primitive-writer", "u32_to_array_le: byte i = (val >> 8i) & 0xff for i in 0..4", len(loops) == 1 and "Range{0, 4}" in loops[0] and stores == [want_store] and rets_ == ["var('v0',)"],
            "loops %s; stores %s; returns %s" % (loops, stores, rets_), EL.f.where(), EL.f.path)
+    # encoders never refuse a value: the only way a consensus_encode fails is a failing write of its sink (hash engines and Vec
+    # sinks never fail, and the id/root/sighash code unwraps on that basis); an explicit Err return in an encoder makes some
+    # in-memory value unserialisable
+    n_enc = 0
+    for pth in sorted(prog.fns):
+        if not re.search(r"Encodable(<.*>)?>::consensus_encode$|impl encode::Encodable for .*>::consensus_encode$", pth):
+            continue
+        n_enc += 1
+        er = err_returns(prog.fns[pth].body)
+        c.inst("R7.encoder-infallible", pth.split(" as ")[0].lstrip("<")[:90], not er, "explicit error returns %s" % [str(e[1])[:80] for e in er[:2]], prog.fns[pth].where(), pth)
+    c.floor("R7.encoder-infallible", 50)
     # encoders that are "the bytes with their length": exactly one unconditional call of the helper on the whole byte view
     WS = {"<bitcoin::ScriptBuf as encode::Encodable>::consensus_encode": "bitcoin::Script::as_bytes(bitcoin::ScriptBuf::as_script(arg1))",
           "<sighash::Annex<'_> as encode::Encodable>::consensus_encode": "arg1.0"}
